@@ -477,8 +477,9 @@ func (c *converter) AppCall(calls []transpiler.AppCall, valueUsed bool) ([]strin
 		if len(argsCopy) > 0 {
 			space = " "
 		}
-		// The program name is quoted as well because a path might contain blanks (@"./my dir/prog"()).
-		callStrings = append(callStrings, fmt.Sprintf("\"%s\"%s%s", call.Name(), space, strings.Join(argsCopy, " ")))
+		// The program name is quoted as well because a path might contain blanks (@"./my dir/prog"()). The command builtin
+		// makes sure the program is run and not a function of the script which happens to have the same name.
+		callStrings = append(callStrings, fmt.Sprintf("command \"%s\"%s%s", call.Name(), space, strings.Join(argsCopy, " ")))
 	}
 	callString := strings.Join(callStrings, " | ")
 
